@@ -36,6 +36,9 @@ def run(ctx: Ctx) -> int:
               "X 0\nM 0\nOBSERVABLE_INCLUDE(0) rec[-1]\nM 0\nOBSERVABLE_INCLUDE(0) rec[-1] rec[-2]\nH 0\nM 0\nDETECTOR rec[-1] rec[-3]\nDETECTOR rec[-2]",
               "RX 0\nT 0\nMX 0\nDETECTOR rec[-1] rec[-1]\nOBSERVABLE_INCLUDE(1) rec[-1]",
               "X 0\nM 0\nDETECTOR rec[-1]\nOBSERVABLE_INCLUDE(0) rec[-1]\nMX 0\nDETECTOR rec[-1]"]
+    # a correlated-error chain followed by another channel before the chain is finalized (bit numbering of the chain is fixed at the finalize)
+    corpus = ["RY 4\nT_DAG 4\nSQRT_Y 4 4\nH_YZ 4\nE(0.25) X4\nH_XZ 4\nT 4\nDEPOLARIZE1(0.125) 4\nH_XY 4 4\nMY 4\nDETECTOR rec[-1]",
+               "H 0\nE(0.25) X0\nELSE_CORRELATED_ERROR(0.5) Z0\nX_ERROR(0.125) 0\nM 0\nE(0.5) X0\nZ_ERROR(0.25) 0\nMX 0\nDETECTOR rec[-1] rec[-2]\nOBSERVABLE_INCLUDE(0) rec[-1]"] + corpus
     cases = [(t, {"corpus": 1}, False) for t in corpus]
     for _ in range(25 if ctx.quick else 600):
         noisy = rng.random() < 0.4
